@@ -2,7 +2,7 @@
    Statements only; the proofs are in Goose/KeysProofs.v, the model in Goose/Keys.v. *)
 From Coq Require Import List ZArith NArith Bool Arith.
 Import ListNotations.
-From LV Require Import Goose.Epoch Goose.Keys Goose.KeysProofs.
+From LV Require Import Goose.Epoch Goose.Keys Goose.KeysProofs Goose.Builder Goose.BuilderProofs.
 Close Scope Z_scope.
 Open Scope nat_scope.
 
@@ -143,3 +143,89 @@ Example C10_toy_replicated :
             /\ map (fun s => nth_error (W_stored toy s) 0) r = repeat (Some (0, 1, 4%Z)) 3
             /\ W_init_of toy 3 (Replicate 4%Z) 2 = Some 4%Z.
 Proof. exact toy_replicated. Qed.
+
+(* ---- the builder: set_engine_seed, build() twice, builder reuse (model: Goose/Builder.v) ---- *)
+(* set_engine_seed: an integer seed is the corresponding PRNG key - same builder, hence the same result of
+   every later sequence of builder calls *)
+Theorem C10_engine_seed_int_equiv : forall mstate (prngkey : Z -> key) jitter_apply z (b : builder mstate),
+  b_set_engine_seed mstate prngkey (IntSeed z) b = b_set_engine_seed mstate prngkey (KeySeed (prngkey z)) b
+  /\ forall sv bv s nch pre post,
+       b_script mstate prngkey jitter_apply sv bv s nch (pre ++ BSetEngineSeed (IntSeed z) :: post)
+       = b_script mstate prngkey jitter_apply sv bv s nch (pre ++ BSetEngineSeed (KeySeed (prngkey z)) :: post).
+Proof. exact engine_seed_int_equiv_full. Qed.
+Print Assumptions C10_engine_seed_int_equiv.
+
+(* the installed engine key is the given key itself, split once per chain; the constructor's own engine
+   key handed back changes nothing *)
+Theorem C10_engine_seed_is_used_as_given : forall mstate (prngkey : Z -> key) jitter_apply bv s (b b' : builder mstate) e,
+  b_build mstate jitter_apply bv (b_set_engine_seed mstate prngkey s b) = Some (e, b') ->
+  ei_seeds e = map (fun c => split (seed_root prngkey s) (bd_nch _ b) c) (seq 0 (bd_nch _ b)).
+Proof. exact set_engine_seed_seeds. Qed.
+Print Assumptions C10_engine_seed_is_used_as_given.
+
+Theorem C10_engine_seed_default_noop : forall mstate (prngkey : Z -> key) s nch,
+  b_set_engine_seed mstate prngkey (KeySeed (b_engine (seed_root prngkey s))) (b_new mstate prngkey s nch)
+  = b_new mstate prngkey s nch.
+Proof. exact set_engine_seed_default_noop. Qed.
+Print Assumptions C10_engine_seed_default_noop.
+
+(* build() does not change the builder's configuration; building twice gives the same engine inputs
+   (per-chain keys and jittered initial states), also at the end of any sequence of builder calls *)
+Theorem C10_build_idempotent : forall mstate jitter_apply (b b' : builder mstate) e,
+  b_build mstate jitter_apply BuildPure b = Some (e, b') ->
+  b' = b /\ b_build mstate jitter_apply BuildPure b' = Some (e, b').
+Proof. exact build_idempotent_full. Qed.
+Print Assumptions C10_build_idempotent.
+
+Theorem C10_script_build_twice : forall mstate (prngkey : Z -> key) jitter_apply sv s nch ops e,
+  b_script mstate prngkey jitter_apply sv BuildPure s nch (ops ++ [BBuild]) = Some e ->
+  b_script mstate prngkey jitter_apply sv BuildPure s nch (ops ++ [BBuild; BBuild]) = Some e.
+Proof. exact script_build_twice. Qed.
+Print Assumptions C10_script_build_twice.
+
+(* a build() that stores the jittered states back is refuted: the second engine starts from
+   initial + 2 x jitter (witness for the variant BuildWritesJitter) *)
+Example C10_build_writes_back_refuted :
+  exists (b b1 b2 : builder Z) e1 e2,
+    b_build Z (fun ks ms => (ms + Z.of_nat (length ks) + 1)%Z) BuildWritesJitter b = Some (e1, b1)
+    /\ b_build Z (fun ks ms => (ms + Z.of_nat (length ks) + 1)%Z) BuildWritesJitter b1 = Some (e2, b2)
+    /\ ei_seeds e1 = ei_seeds e2 /\ ei_states e1 = [12; 22]%Z /\ ei_states e2 = [14; 24]%Z.
+Proof. exact build_writes_back_refuted. Qed.
+
+(* builder reuse: set_initial_values replaces the states the builder held; the next build hands chain c
+   jitter_c (init_c) of the NEW argument, whatever was set or built before (both build variants) *)
+Theorem C10_build_after_set_initial_values : forall mstate jitter_apply sv bv a (b b1 b2 : builder mstate) e c i0,
+  b_set_initial_values mstate sv a b = Some b1 -> b_build mstate jitter_apply bv b1 = Some (e, b2) ->
+  init_of mstate (bd_nch _ b) a c = Some i0 ->
+  nth_error (ei_states e) c
+  = Some (jitter_chain_g mstate jitter_apply (bd_jitter _ b) (bd_nch _ b) (bd_jit _ b) c i0).
+Proof. exact first_state_after_build. Qed.
+Print Assumptions C10_build_after_set_initial_values.
+
+(* key hygiene for an engine key installed by set_engine_seed, provided it is unrelated to the builder's
+   jitter key (the constructor's own keys are: default_keys_apart) *)
+Theorem C10_key_hygiene_engine_seed : forall ek jk nch jit p sched evs,
+  ~ prefix ek jk -> ~ prefix jk ek ->
+  run_events_g ek jk nch jit p sched = Some evs ->
+  NoDup (map snd (uses evs))
+  /\ (forall l k n, In (EUse l k) evs -> ~ In (ESplit k n) evs)
+  /\ (forall l k e, In (EUse l k) evs -> In e evs -> prefix k (ekey e) -> e = EUse l k).
+Proof. exact key_hygiene_g. Qed.
+Print Assumptions C10_key_hygiene_engine_seed.
+
+(* the hypothesis is needed: the constructor's seed given again through set_engine_seed makes the engine key
+   the root the jitter key was split from; a kernel's init_state call and a jitter function then share a key *)
+Example C10_engine_seed_same_seed_collides :
+  exists evs l1 l2 k,
+    run_events_g [] (b_jitter []) 3 (Some 2) (mkP 3 0 1) [mkE Init 1 1; mkE Post 1 1]%Z = Some evs
+    /\ In (EUse l1 k) evs /\ In (EUse l2 k) evs /\ l_meth l1 = MInit /\ l_meth l2 = MJitter.
+Proof. exact set_engine_seed_same_seed_collides. Qed.
+
+(* the default builder (constructor seed, set_initial_values, set_jitter_fns, build) followed by
+   Engine(...) is the batched run all theorems above are about *)
+Theorem C10_built_default_is_batched : forall (w : world) (prngkey : Z -> key) v root nch jit a ei,
+  b_script (w_mstate w) prngkey (w_jitter_apply w) v BuildPure (KeySeed root) nch
+           [BSetInit a; BSetJitter jit; BBuild] = Some ei ->
+  W_run_built w ei = W_run_batched w v root nch jit a.
+Proof. exact W_built_default_is_batched. Qed.
+Print Assumptions C10_built_default_is_batched.
